@@ -306,7 +306,7 @@ pub fn run_c07(ctx: &Ctx) -> i32 {
     }
     let npairs = pairs.len() as u64;
     let pairs = Arc::new(pairs);
-    let n = ctx.tier.pick(900.min(npairs), npairs);
+    let n = ctx.tier.pick(2000.min(npairs), npairs);
     let t2 = Arc::clone(&tweaks);
     let p2 = Arc::clone(&pairs);
     run_cases(ctx, "pair", n, &mut out, |idx, out| {
@@ -323,7 +323,7 @@ pub fn run_c07(ctx: &Ctx) -> i32 {
         check_config(ctx, "pair", idx, &c, &d, k % 3 == 0, out);
     });
     // random full assignments (valid by construction, then 0-2 boundary tweaks)
-    let n = ctx.tier.pick(300, 6000);
+    let n = ctx.tier.pick(900, 24_000);
     let t3 = Arc::clone(&tweaks);
     run_cases(ctx, "random", n, &mut out, |idx, out| {
         let mut rng = Rng::for_case(ctx.seed, "C07.random", idx);
@@ -554,7 +554,7 @@ fn random_any_config(rng: &mut Rng) -> config::Encoder {
 
 pub fn run_c19(ctx: &Ctx) -> i32 {
     let mut out = Outcome::default();
-    let n = ctx.tier.pick(4000, 60_000);
+    let n = ctx.tier.pick(12_000, 240_000);
     run_cases(ctx, "roundtrip", n, &mut out, |idx, out| {
         let mut rng = Rng::for_case(ctx.seed, "C19.roundtrip", idx);
         let c = if idx == 0 { config::Encoder::default() } else { random_any_config(&mut rng) };
@@ -847,7 +847,7 @@ fn fresh_result(cache: &FreshCache, call: &Call) -> Arc<Result<Vec<u8>, String>>
 pub fn run_c10(ctx: &Ctx) -> i32 {
     let mut out = Outcome::default();
     let cache: FreshCache = Mutex::new(HashMap::new());
-    let n = ctx.tier.pick(400, 16_000);
+    let n = ctx.tier.pick(1200, 64_000);
     run_cases(ctx, "history", n, &mut out, |idx, out| {
         let mut rng = Rng::for_case(ctx.seed, "C10.history", idx);
         let pool = history_pool(&mut rng);
@@ -907,7 +907,7 @@ pub fn run_c10(ctx: &Ctx) -> i32 {
         }
     });
     // targeted pairs: window parameters closer than 2^-16, shrinking/growing block sizes
-    let n = ctx.tier.pick(300, 6000);
+    let n = ctx.tier.pick(900, 24_000);
     run_cases(ctx, "pairs", n, &mut out, |idx, out| {
         let mut rng = Rng::for_case(ctx.seed, "C10.pairs", idx);
         let bps = *rng.pick(&[16usize, 24]);
